@@ -39,6 +39,7 @@ def strategy(tier):
         "same": st.integers(0, 5).map(lambda v: v == 0),
         "tomos_a": st.lists(st.integers(1, 5), min_size=1, max_size=4, unique=True),
         "tomos_b": st.lists(st.integers(1, 5), min_size=1, max_size=4, unique=True),
+        "tomo_base": st.sampled_from([0, 0, 0, 230100, 1000000]),
         "share": st.integers(0, 4),
         "k": st.integers(1, 5),
         "rotation_type": st.sampled_from(["angular_distance", "angular_distance", "cone_distance"]),
@@ -66,7 +67,8 @@ def _bulk(rng, n, first_id):
 def arrays(case):
     A = gen.table_array(case["a"], _bulk)
     B = A.copy() if case["same"] else gen.table_array(case["b"], _bulk)
-    ta, tb = list(case["tomos_a"]), list(case["tomos_b"])
+    base = case.get("tomo_base", 0)  # date-coded / six-digit tomogram numbers that differ by 1
+    ta, tb = [t + base for t in case["tomos_a"]], [t + base for t in case["tomos_b"]]
     if case["same"]:
         tb = ta
     elif case["share"] == 1:  # second list covers the first list's tomograms plus one more
